@@ -205,6 +205,15 @@ pub fn edit_node(src: &mut Src, n: &Node) -> (Node, &'static str) {
                 *name = "key-changed";
                 PkH(other_key(k))
             }
+            RawPkH(h) => {
+                *name = "raw-pkh-hash-changed";
+                let mut c: Vec<char> = h.chars().collect();
+                let i = src.below(c.len().max(1));
+                if !c.is_empty() {
+                    c[i] = if c[i] == '0' { '1' } else { '0' };
+                }
+                RawPkH(c.into_iter().collect())
+            }
             After(t) => {
                 *name = "after+1";
                 After(t + 1)
@@ -553,6 +562,7 @@ impl Check for C19 {
         cfg.key_style = KeyStyle::Hex;
         cfg.legacy_restrict = false;
         cfg.max_multi_n = 4;
+        cfg.allow_raw_pkh = lane == "miniscript";
         let a = named_keys(&gen::gen_ms(src, &cfg));
         let (b2, edit) = match src.below(8) {
             0 => (a.clone(), "identical"),
